@@ -78,6 +78,7 @@ fn main() {
         }
     }
     let ctx = Ctx::new(&id, tier);
+    *speclib::report::BOUND_ADDENDUM.lock().unwrap() = props::bound_addendum(&id).to_string();
     if replay.is_none() {
         let budget = std::env::var("VERIF_BUDGET_S").ok().and_then(|s| s.parse().ok()).unwrap_or(match tier {
             Tier::Quick => 420,
